@@ -44,6 +44,15 @@ def gen(ctx):
     for _ in range(300 if ctx.quick else 3000):
         N = rnd.choice([1, 2, 3, 4]); sz = L.random_shape(rnd, N, "strided", big=True)
         cases.append(("ident", "strided", sz, L.random_coord(rnd, sz)))
+    # row-major boxes of more than 2^31 / 2^32 / 2^40 cells (identity backend: no storage): strides must be formed in size_t
+    for sz, cos in (([2, 65537, 65536], [[1, 0, 0], [1, 65536, 65535], [0, 1, 0]]),
+                    ([3, (1 << 31) + 1], [[2, 5], [1, 1 << 31], [2, 1 << 31]]),
+                    ([5, 1 << 20, (1 << 12) + 1], [[4, (1 << 20) - 1, 1 << 12], [1, 0, 0], [0, 1, 0]]),
+                    ([3, 3, 1 << 16, 1 << 16], [[2, 2, 65535, 65535], [1, 0, 0, 0], [0, 1, 0, 0]]),
+                    ([(1 << 33) + 7], [[1 << 33], [(1 << 33) + 6]]),
+                    ([7, (1 << 40) + 3], [[6, 1 << 40], [1, 0]])):
+        for co in cos:
+            cases.append(("ident", "strided", sz, co))
     # Morton: exhaustive for small bit-widths through the layer, boundary bit patterns and random 64-bit through the static function
     for N in (1, 2, 3, 4):
         bits = {1: 8, 2: 4, 3: 3, 4: 2}[N] if ctx.quick else {1: 11, 2: 6, 3: 4, 4: 3}[N]
